@@ -77,9 +77,9 @@ inline std::string qKinds(const std::string& t, bool euler) {
     if (t == "BendStretch") return "ac";   if (t == "Planar") return "acc";
     if (t == "Gimbal") return "aaa";       if (t == "Bushing") return "aaaccc";
     if (t == "Ball") return euler ? "aaax" : "qqqq";
-    if (t == "Free") return euler ? "aaaxccc" : "qqqqccc";
+    if (t == "Free") return euler ? "aaacccx" : "qqqqccc";
     if (t == "LineOrientation") return euler ? "aaax" : "qqqq";
-    if (t == "FreeLine") return euler ? "aaaxccc" : "qqqqccc";
+    if (t == "FreeLine") return euler ? "aaacccx" : "qqqqccc";
     if (t == "Translation") return "ccc";  if (t == "Screw") return "a";
     if (t == "SphericalCoords") return "aac";
     if (t == "Ellipsoid") return euler ? "aaax" : "qqqq";
@@ -96,6 +96,7 @@ struct Model {
     std::vector<BodyDesc> desc;
     std::string qkinds;                     // concatenated over mobilizers, in q order
     bool euler = false;
+    std::vector<int> quatStarts;
     Model() : matter(system), forces(system) {}
 };
 
@@ -146,7 +147,7 @@ inline void buildTree(Model& M, const std::string& spec, bool euler) {
     M.bodies.push_back(M.matter.Ground());
     int k = 1;
     for (auto& d : M.desc) { M.bodies.push_back(addBody(M, d, k)); ++k; }
-    for (auto& d : M.desc) M.qkinds += qKinds(d.type, euler);
+    for (auto& d : M.desc) { std::string k = qKinds(d.type, euler); if (k.substr(0, 4) == "qqqq") M.quatStarts.push_back((int)M.qkinds.size()); M.qkinds += k; }
 }
 
 // realize topology, set Euler option, fill q and u with symbolic inputs; returns the state (realized to Model)
@@ -167,6 +168,7 @@ inline State initState(Model& M, bool symbolicU = true) {
         else if (kd == 'c') s.updQ()[i] = in(S("q", i), 0.25 + 0.125 * (i % 5), "coord");
         else { s.updQ()[i] = in(S("q", i), qq[nquat % 4], "quat"); ++nquat; }
     }
+    { std::string qs; for (int st : M.quatStarts) qs += " " + std::to_string(st); symfp::note("quat_starts", qs); }
     if (symbolicU) for (int i = 0; i < nu; ++i) s.updU()[i] = in(S("u", i), 0.5 - 0.25 * (i % 4), "lin");
     return s;
 }
